@@ -38,11 +38,11 @@ Definition bh_case :=
 Definition bh_params_of (ew sc per : bool) (freq cut_nm ang_deg : q) (G : Z) : bh_params :=
   mkBH ew sc per freq (q_scale G cut_nm) (bh_cos_of_degrees (fst ang_deg) (snd ang_deg)).
 
-Definition run_bh (c : bh_case) : result (list triplet * list triplet) :=
+Definition run_bh_k (K : consts) (c : bh_case) : result (list triplet * list triplet) :=
   match c with
   | (ew, sc, per, freq, cut, ang, gd, ga, G, t, fs) =>
-    let cut0 := match cut with Some x => x | None => bh_distance_cutoff end in
-    let ang0 := match ang with Some x => x | None => bh_angle_cutoff end in
+    let cut0 := match cut with Some x => x | None => c_bh_cut K end in
+    let ang0 := match ang with Some x => x | None => c_bh_ang K end in
     let ps := bh_params_of ew sc per freq (q_sub cut0 gd) (q_add ang0 ga) G in
     let pl := bh_params_of ew sc per freq (q_add cut0 gd) (q_sub ang0 ga) G in
     match baker_hubbard ps t fs, baker_hubbard pl t fs with
@@ -50,6 +50,9 @@ Definition run_bh (c : bh_case) : result (list triplet * list triplet) :=
     | _, _ => ErrNoBonds
     end
   end.
+
+Definition run_bh := run_bh_k gen_consts.
+Definition run_bh_spec := run_bh_k doc_consts.
 
 Definition check_bh (o : result (list triplet * list triplet)) (e : result (list triplet)) : bool :=
   match o, e with
@@ -65,16 +68,19 @@ Definition bh_uncertain (c : bh_case) : nat :=
 (* ------------------------------------------------------------------ wernet_nilsson *)
 Definition wn_case := (bool * bool * bool * q * Z * topo * list frame)%type.   (* ew sc periodic guard_nm G *)
 
-Definition run_wn (c : wn_case) : result (list (list triplet) * list (list triplet)) :=
+Definition run_wn_k (K : consts) (c : wn_case) : result (list (list triplet) * list (list triplet)) :=
   match c with
   | (ew, sc, per, gd, G, t, fs) =>
-    let ps := mkWN ew sc per G (q_sub wn_distance_cutoff gd) wn_angle_const in
-    let pl := mkWN ew sc per G (q_add wn_distance_cutoff gd) wn_angle_const in
+    let ps := mkWN ew sc per G (q_sub (c_wn_cut K) gd) (c_wn_const K) in
+    let pl := mkWN ew sc per G (q_add (c_wn_cut K) gd) (c_wn_const K) in
     match wernet_nilsson ps t fs, wernet_nilsson pl t fs with
     | Ok s, Ok l => Ok (s, l)
     | _, _ => ErrNoBonds
     end
   end.
+
+Definition run_wn := run_wn_k gen_consts.
+Definition run_wn_spec := run_wn_k doc_consts.
 
 Fixpoint sandwich_all (s l i : list (list triplet)) : bool :=
   match s, l, i with
@@ -105,28 +111,28 @@ Fixpoint insert_z (x : Z) (l : list Z) : list Z :=
 Definition sort_z (l : list Z) : list Z := fold_right insert_z [] l.
 
 (* energies of all pairs the loop can ask for, computed once *)
-Definition energy_table (G : Z) (hv : hvariant) (gca : q) (rs : list residue) (xyz : list vec) (oob : vec)
+Definition energy_table (K : consts) (G : Z) (hv : hvariant) (gca : q) (rs : list residue) (xyz : list vec) (oob : vec)
   : list (list (option (option Z))) :=
   let n := length rs in
-  let thr := fst ks_energy_cutoff * SC / snd ks_energy_cutoff in
-  let phi := mkKS G hv thr (q_add ks_minimal_ca_distance2 gca) in
-  let hs := hydrogens G xyz oob hv rs in
+  let thr := fst (c_ks_ecut K) * SC / snd (c_ks_ecut K) in
+  let phi := mkKS K G hv thr (q_add (c_ks_ca2 K) gca) in
+  let hs := hydrogens K G xyz oob hv rs in
   map (fun d => map (fun a =>
          if negb (r_skip (res_at rs d)) && offered rs d a && ca_close phi xyz (res_at rs d) (res_at rs a)
-         then Some (ks_energy_h G xyz oob hs rs d a) else None) (seq 0 n)) (seq 0 n).
+         then Some (ks_energy_h K G xyz oob hs rs d a) else None) (seq 0 n)) (seq 0 n).
 
-Definition table_energy (G : Z) (hv : hvariant) (rs : list residue) (xyz : list vec) (oob : vec)
+Definition table_energy (K : consts) (G : Z) (hv : hvariant) (rs : list residue) (xyz : list vec) (oob : vec)
            (tab : list (list (option (option Z)))) (d a : nat) : option Z :=
   match nth a (nth d tab []) None with
   | Some e => e
-  | None => ks_energy G xyz oob hv rs d a      (* not tabulated: compute (never needed in practice) *)
+  | None => ks_energy K G xyz oob hv rs d a      (* not tabulated: compute (never needed in practice) *)
   end.
 
-Definition ks_ambiguous (G : Z) (hv : hvariant) (ge : Z) (gca : q) (rs : list residue) (xyz : list vec)
+Definition ks_ambiguous (K : consts) (G : Z) (hv : hvariant) (ge : Z) (gca : q) (rs : list residue) (xyz : list vec)
            (tab : list (list (option (option Z)))) (d : nat) : bool :=
   let n := length rs in
-  let thr := fst ks_energy_cutoff * SC / snd ks_energy_cutoff in
-  let plo := mkKS G hv thr (q_sub ks_minimal_ca_distance2 gca) in
+  let thr := fst (c_ks_ecut K) * SC / snd (c_ks_ecut K) in
+  let plo := mkKS K G hv thr (q_sub (c_ks_ca2 K) gca) in
   let cands := filter (fun a => match nth a (nth d tab []) None with Some _ => true | None => false end) (seq 0 n) in
   let border_ca := existsb (fun a => negb (ca_close plo xyz (res_at rs d) (res_at rs a))) cands in
   let es := flat_map (fun a => match nth a (nth d tab []) None with Some (Some e) => [e] | _ => [] end) cands in
@@ -157,20 +163,22 @@ Fixpoint bonds_match (tol : Z) (m e : list (nat * Z)) : bool :=
 Definition ks_case := (Z * hvariant * Z * q * Z * list residue * list vec * vec)%type.
 
 (* Some (per donor: ambiguous?, bonds sorted by acceptor); None = degenerate geometry *)
-Definition run_ks (c : ks_case) : option (list (bool * list (nat * Z))) :=
+Definition run_ks_k (K : consts) (c : ks_case) : option (list (bool * list (nat * Z))) :=
   match c with
   | (G, hv, ge, gca, tol, rs, xyz, oob) =>
-    let thr := fst ks_energy_cutoff * SC / snd ks_energy_cutoff in
-    let p := mkKS G hv thr ks_minimal_ca_distance2 in
-    let tab := energy_table G hv gca rs xyz oob in
-    match ks_loop p empty_nan rs xyz (table_energy G hv rs xyz oob tab) with
+    let thr := fst (c_ks_ecut K) * SC / snd (c_ks_ecut K) in
+    let p := mkKS K G hv thr (c_ks_ca2 K) in
+    let tab := energy_table K G hv gca rs xyz oob in
+    match ks_loop p empty_nan rs xyz (table_energy K G hv rs xyz oob tab) with
     | None => None
     | Some sl =>
       Some (map (fun ds : nat * slots => let (d, s) := ds in
-                   (ks_ambiguous G hv ge gca rs xyz tab d, sort_a (slot_list s)))
+                   (ks_ambiguous K G hv ge gca rs xyz tab d, sort_a (slot_list s)))
                 (combine (seq 0 (length rs)) sl))
     end
   end.
+
+Definition run_ks := run_ks_k gen_consts.
 
 Fixpoint ks_rows_match (tol : Z) (m : list (bool * list (nat * Z))) (e : ks_expected) : bool :=
   match m, e with
@@ -215,8 +223,10 @@ Definition wn_unc (r : result (list (list triplet) * list (list triplet))) : nat
   | Ok (s, l) => fold_left (fun acc sl => (acc + (length (snd sl) - length (fst sl)))%nat) (combine s l) 0%nat
   | ErrNoBonds => 0%nat
   end.
-Definition run_ks_t (c : ks_case) : Z * option (list (bool * list (nat * Z))) :=
-  match c with (_, _, _, _, tol, _, _, _) => (tol, run_ks c) end.
+Definition run_ks_t_k (K : consts) (c : ks_case) : Z * option (list (bool * list (nat * Z))) :=
+  match c with (_, _, _, _, tol, _, _, _) => (tol, run_ks_k K c) end.
+Definition run_ks_t := run_ks_t_k gen_consts.
+Definition run_ks_t_spec := run_ks_t_k doc_consts.
 Definition check_ks_t (r : Z * option (list (bool * list (nat * Z)))) (e : ks_expected) : bool :=
   match snd r with None => true | Some m => ks_rows_match (fst r) m e end.
 Definition ks_unc (r : Z * option (list (bool * list (nat * Z)))) : nat :=
